@@ -137,3 +137,96 @@ pub fn permit_ban_snapshot() -> PermitBanList {
 pub fn permit_ban_reset(list: PermitBanList) {
     *PERMIT_BAN_LIST.write() = list;
 }
+
+/// What became of one datagram handed to the receive path.
+#[derive(Debug, Clone, Copy, PartialEq, Eq)]
+pub enum Fate {
+    /// dropped by one of the two filter passes
+    Dropped,
+    /// forwarded to the handler as an unrecognized frame (`Packet::decode` failed)
+    Unrecognized,
+    /// forwarded to the handler as an inbound packet
+    Delivered,
+}
+
+/// The kind of datagram `RecvFacade::inbound` builds.
+#[derive(Debug, Clone, Copy, PartialEq, Eq)]
+pub enum DatagramKind {
+    /// an ordinary message packet from this node id (random-looking ciphertext)
+    Message(NodeId),
+    /// a WHOAREYOU packet (carries no source id)
+    WhoAreYou,
+    /// bytes that `Packet::decode` rejects
+    Garbage,
+}
+
+/// The real `RecvHandler` (exemption lookup, the two filter passes, `Packet::decode`) without a
+/// UDP socket task: datagrams are handed to `RecvHandler::handle_inbound` directly.
+pub struct RecvFacade {
+    inner: crate::socket::recv::RecvHandler,
+    out: tokio::sync::mpsc::Receiver<crate::socket::recv::RecvPacket>,
+    local_id: NodeId,
+    /// the map of expected responses shared with the receive path (exempt sources)
+    pub expected_responses: std::sync::Arc<parking_lot::RwLock<std::collections::HashMap<SocketAddr, usize>>>,
+}
+
+impl RecvFacade {
+    pub async fn new(
+        config: FilterConfig,
+        ban_duration: Option<Duration>,
+        local_id: NodeId,
+    ) -> std::io::Result<Self> {
+        let expected_responses = std::sync::Arc::new(parking_lot::RwLock::new(Default::default()));
+        let (inner, out) = crate::socket::recv::RecvHandler::verif_new(
+            config,
+            ban_duration,
+            local_id,
+            ProtocolIdentity::default(),
+            expected_responses.clone(),
+        )
+        .await?;
+        Ok(RecvFacade {
+            inner,
+            out,
+            local_id,
+            expected_responses,
+        })
+    }
+
+    /// Builds a datagram of the given kind addressed to the local node and passes it through
+    /// `RecvHandler::handle_inbound` as if it had arrived from `src`.
+    pub async fn inbound(&mut self, src: SocketAddr, kind: DatagramKind) -> Fate {
+        let data = match kind {
+            DatagramKind::Message(src_id) => Packet {
+                iv: 7,
+                header: PacketHeader {
+                    message_nonce: [3u8; 12],
+                    protocol_identity: ProtocolIdentity::default(),
+                    kind: PacketKind::Message { src_id },
+                },
+                message: vec![0x5a; 24],
+            }
+            .encode(&self.local_id),
+            DatagramKind::WhoAreYou => Packet {
+                iv: 9,
+                header: PacketHeader {
+                    message_nonce: [4u8; 12],
+                    protocol_identity: ProtocolIdentity::default(),
+                    kind: PacketKind::WhoAreYou {
+                        id_nonce: [5u8; 16],
+                        enr_seq: 1,
+                    },
+                },
+                message: Vec::new(),
+            }
+            .encode(&self.local_id),
+            DatagramKind::Garbage => vec![0u8; 20],
+        };
+        self.inner.verif_handle_inbound(src, &data).await;
+        match self.out.try_recv() {
+            Ok(crate::socket::recv::RecvPacket::Inbound(_)) => Fate::Delivered,
+            Ok(crate::socket::recv::RecvPacket::UnrecognizedFrame(_)) => Fate::Unrecognized,
+            Err(_) => Fate::Dropped,
+        }
+    }
+}
